@@ -31,11 +31,14 @@ from srcfacts import load_tu, Cannot, body_of
 # what to translate: (file, [functions]) per program
 # ------------------------------------------------------------------------------------------
 PROGRAMS = [
-    ("reporter", "src/reporter.c",
-     ["read_reporter_results", "reporter_finish_test", "reporter_finish_suite",
-      "reporter_start_test", "reporter_start_suite",
-      "add_reporter_result", "send_reporter_exception_notification",
-      "send_reporter_skipped_notification", "send_reporter_completion_notification"]),
+    # the base reporter and, in the same program (its functions call the base's), the CUTE reporter's
+    # per-test / per-suite functions
+    ("reporter", ["src/reporter.c", "src/cute_reporter.c"],
+     [["read_reporter_results", "reporter_finish_test", "reporter_finish_suite",
+       "reporter_start_test", "reporter_start_suite",
+       "add_reporter_result", "send_reporter_exception_notification",
+       "send_reporter_skipped_notification", "send_reporter_completion_notification"],
+      ["cute_start_suite", "cute_start_test", "cute_finish_test", "cute_finish_suite", "cute_failed_to_complete"]]),
     # the path of one test through the runner
     ("runner", "src/runner.c",
      ["run_the_test_code", "run_test_in_the_current_process", "run_test_suite", "run_single_test"]),
